@@ -6,7 +6,7 @@ open OllamaVerif.Lockset
 def classNames : List String := ["Scheduler.expiredCh", "Scheduler.finishedReqCh", "Scheduler.getCpuFn", "Scheduler.getGpuFn", "Scheduler.loadFn", "Scheduler.loaded", "Scheduler.newServerFn", "Scheduler.pendingReqCh", "Scheduler.reschedDelay", "Scheduler.unloadedCh", "Server.addr", "Server.sched", "blobDownload.CancelFunc", "blobDownload.Completed", "blobDownload.Digest", "blobDownload.Name", "blobDownload.Parts", "blobDownload.Total", "blobDownload.done", "blobDownload.err", "blobDownload.references", "blobUpload.CancelFunc", "blobUpload.Completed", "blobUpload.Layer", "blobUpload.Parts", "blobUpload.Total", "blobUpload.done", "blobUpload.err", "blobUpload.file", "blobUpload.nextURL", "blobUpload.references", "global.blobDownloadManager", "global.blobUploadManager", "global.intermediateBlobs", "runnerRef.Options", "runnerRef.estimatedTotal", "runnerRef.estimatedVRAM", "runnerRef.expireTimer", "runnerRef.expiresAt", "runnerRef.gpus", "runnerRef.llama", "runnerRef.loading", "runnerRef.model", "runnerRef.modelPath", "runnerRef.numParallel", "runnerRef.refCount", "runnerRef.sessionDuration"]
 def lockNames : List String := ["Scheduler.loadedMu", "runnerRef.refMu"]
 def threadNames : List String := ["Scheduler.Run$1", "Scheduler.Run$2", "Scheduler.load$1", "Scheduler.load$1$1", "Scheduler.processCompleted$1", "Scheduler.processCompleted$2", "Scheduler.processPending$1", "Serve$2", "Server.CreateHandler$1", "Server.PullHandler$1", "Server.PushHandler$1", "api", "blobDownload.downloadChunk$1", "blobDownload.downloadChunk$2", "blobDownload.run$2", "blobUpload.Run$1", "go:downloadBlob:download.Run", "go:uploadBlob:upload.Run", "main", "runnerRef.waitForVRAMRecovery$1"]
-def siteNames : List String := ["InitScheduler:70", "Scheduler.processPending:292", "Scheduler.processCompleted:339", "Scheduler.expireRunner:825", "Scheduler.processCompleted$1:350", "Scheduler.processCompleted$2:370", "Scheduler.load$1:461", "InitScheduler:69", "Scheduler.processPending:153", "Scheduler.processCompleted:322", "Scheduler.load$1$1:469", "InitScheduler:75", "Scheduler.processPending:164", "InitScheduler:74", "Scheduler.processPending:166", "InitScheduler:78", "Scheduler.processPending:214", "Server.PsHandler:1397", "InitScheduler:72", "Scheduler.processPending:145", "Scheduler.processCompleted:324", "Scheduler.processCompleted:380", "Scheduler.load:450", "Scheduler.load:451", "Scheduler.updateFreeSpace:482", "Scheduler.filterGPUsWithoutLoadingModels:522", "Scheduler.findRunnerToUnload:772", "Scheduler.findRunnerToUnload:773", "Scheduler.unloadAllRunners:804", "Scheduler.expireRunner:815", "InitScheduler:73", "Scheduler.load:422", "InitScheduler:68", "Scheduler.GetRunner:98", "Scheduler.processPending:123", "Scheduler.processPending$1:270", "InitScheduler:76", "Scheduler.processPending$1:269", "InitScheduler:71", "Scheduler.processPending:303", "Scheduler.processCompleted:387", "Server.GenerateRoutes:1174", "Serve:1276", "Server.scheduleRunner:109", "Server.GenerateHandler:162", "Serve:1297", "Serve:1323", "Server.ChatHandler:1461", "blobDownload.run:216", "blobDownload.release:432", "blobDownloadPart.Write:119", "blobDownload.Prepare:141", "blobDownload.Wait:450", "blobDownload.downloadChunk$1:346", "blobDownload.Prepare:177", "blobDownload.run:215", "blobDownload.Wait:447", "downloadBlob:488", "blobDownload.run$2:295", "blobDownload.downloadChunk$2:374", "blobDownloadPart.Name:105", "blobDownload.Prepare:127", "blobDownload.run:218", "blobDownload.run:322", "blobDownload.Prepare:142", "blobDownload.run:275", "blobDownload.newPart:391", "blobDownload.newPart:396", "blobDownload.Prepare:140", "blobDownload.Prepare:154", "blobDownload.run:225", "blobDownload.Wait:449", "blobDownload.Prepare:132", "blobDownload.Run:184", "blobDownload.Wait:443", "blobDownload.Run:185", "blobDownload.Wait:444", "blobDownload.acquire:427", "blobDownload.release:431", "blobUpload.Run:129", "blobUpload.release:313", "blobUpload.Prepare:87", "blobUpload.Wait:333", "progressWriter.Write:358", "progressWriter.Rollback:363", "blobUpload.Prepare:54", "blobUpload.Run:128", "blobUpload.Run:189", "blobUpload.uploadPart:269", "blobUpload.Wait:330", "uploadBlob:388", "blobUpload.Run$1:162", "blobUpload.Prepare:107", "blobUpload.Run:146", "blobUpload.Prepare:82", "blobUpload.Wait:332", "blobUpload.Prepare:88", "blobUpload.Run:213", "blobUpload.Wait:336", "blobUpload.Run:133", "blobUpload.Run:176", "blobUpload.Run:137", "blobUpload.Run:142", "blobUpload.uploadPart:226", "blobUpload.Prepare:120", "blobUpload.Prepare:121", "blobUpload.Run:150", "blobUpload.uploadPart:252", "blobUpload.acquire:308", "blobUpload.release:312", "Server.CreateBlobHandler:1006", "Server.CreateBlobHandler:1015", "Scheduler.load:438", "runnerRef.unload:572", "runnerRef.needsReload:586", "Server.PsHandler:1410", "Scheduler.load:442", "Server.PsHandler:1411", "Scheduler.load:441", "runnerRef.waitForVRAMRecovery$1:660", "Scheduler.processPending:286", "Scheduler.processPending:288", "Scheduler.processCompleted:335", "Scheduler.processCompleted:337", "LlmRequest.useLoadedRunner:399", "LlmRequest.useLoadedRunner:401", "runnerRef.unload:563", "runnerRef.unload:565", "Scheduler.expireRunner:819", "Scheduler.expireRunner:821", "Scheduler.processCompleted$1:346", "Scheduler.processCompleted$1:348", "Server.PsHandler:1414", "Scheduler.processCompleted:352", "Scheduler.expireRunner:818", "Scheduler.load:440", "Scheduler.filterGPUsWithoutLoadingModels:524", "runnerRef.unload:573", "runnerRef.waitForVRAMRecovery:626", "Server.scheduleRunner:117", "Scheduler.load:437", "Scheduler.updateFreeSpace:484", "runnerRef.unload:567", "runnerRef.unload:571", "runnerRef.needsReload:606", "Scheduler.unloadAllRunners:805", "Scheduler.load:443", "Scheduler.filterGPUsWithoutLoadingModels:523", "runnerRef.needsReload:582", "Scheduler.load$1:465", "Server.PsHandler:1398", "Scheduler.load:435", "runnerRef.unload:570", "runnerRef.needsReload:603", "Scheduler.processPending:285", "Scheduler.processPending:298", "Scheduler.processCompleted:334", "Scheduler.processCompleted:362", "Scheduler.processCompleted:377", "Scheduler.load:436", "ByDurationAndName.Less:682", "Scheduler.processCompleted$1:343", "Scheduler.load$1:460", "runnerRef.waitForVRAMRecovery$1:648", "Scheduler.load:446", "runnerRef.needsReload:599", "Scheduler.processCompleted:331", "Scheduler.processCompleted:332", "LlmRequest.useLoadedRunner:398", "Scheduler.load:444", "Scheduler.findRunnerToUnload:789", "Scheduler.expireRunner:824", "Scheduler.load$1:458", "Server.PsHandler:1421", "Scheduler.processPending:290", "Scheduler.processCompleted:333", "LlmRequest.useLoadedRunner:404", "Scheduler.load:439", "ByDurationAndName.Less:676", "Scheduler.expireRunner:823"]
+def siteNames : List String := ["InitScheduler:70", "Scheduler.processPending:292", "Scheduler.processCompleted:339", "Scheduler.expireRunner:825", "Scheduler.processCompleted$1:350", "Scheduler.processCompleted$2:370", "Scheduler.load$1:461", "InitScheduler:69", "Scheduler.processPending:153", "Scheduler.processCompleted:322", "Scheduler.load$1$1:469", "InitScheduler:75", "Scheduler.processPending:164", "InitScheduler:74", "Scheduler.processPending:166", "InitScheduler:78", "Scheduler.processPending:214", "Server.PsHandler:1401", "InitScheduler:72", "Scheduler.processPending:145", "Scheduler.processCompleted:324", "Scheduler.processCompleted:380", "Scheduler.load:450", "Scheduler.load:451", "Scheduler.updateFreeSpace:482", "Scheduler.filterGPUsWithoutLoadingModels:522", "Scheduler.findRunnerToUnload:772", "Scheduler.findRunnerToUnload:773", "Scheduler.unloadAllRunners:804", "Scheduler.expireRunner:815", "InitScheduler:73", "Scheduler.load:422", "InitScheduler:68", "Scheduler.GetRunner:98", "Scheduler.processPending:123", "Scheduler.processPending$1:270", "InitScheduler:76", "Scheduler.processPending$1:269", "InitScheduler:71", "Scheduler.processPending:303", "Scheduler.processCompleted:387", "Server.GenerateRoutes:1174", "Serve:1276", "Server.scheduleRunner:109", "Server.GenerateHandler:162", "Serve:1297", "Serve:1323", "Server.PsHandler:1400", "Server.ChatHandler:1466", "blobDownload.run:216", "blobDownload.release:432", "blobDownloadPart.Write:119", "blobDownload.Prepare:141", "blobDownload.Wait:450", "blobDownload.downloadChunk$1:346", "blobDownload.Prepare:177", "blobDownload.run:215", "blobDownload.Wait:447", "downloadBlob:488", "blobDownload.run$2:295", "blobDownload.downloadChunk$2:374", "blobDownloadPart.Name:105", "blobDownload.Prepare:127", "blobDownload.run:218", "blobDownload.run:322", "blobDownload.Prepare:142", "blobDownload.run:275", "blobDownload.newPart:391", "blobDownload.newPart:396", "blobDownload.Prepare:140", "blobDownload.Prepare:154", "blobDownload.run:225", "blobDownload.Wait:449", "blobDownload.Prepare:132", "blobDownload.Run:184", "blobDownload.Wait:443", "blobDownload.Run:185", "blobDownload.Wait:444", "blobDownload.acquire:427", "blobDownload.release:431", "blobUpload.Run:129", "blobUpload.release:313", "blobUpload.Prepare:87", "blobUpload.Wait:333", "progressWriter.Write:358", "progressWriter.Rollback:363", "blobUpload.Prepare:54", "blobUpload.Run:128", "blobUpload.Run:189", "blobUpload.uploadPart:269", "blobUpload.Wait:330", "uploadBlob:388", "blobUpload.Run$1:162", "blobUpload.Prepare:107", "blobUpload.Run:146", "blobUpload.Prepare:82", "blobUpload.Wait:332", "blobUpload.Prepare:88", "blobUpload.Run:213", "blobUpload.Wait:336", "blobUpload.Run:133", "blobUpload.Run:176", "blobUpload.Run:137", "blobUpload.Run:142", "blobUpload.uploadPart:226", "blobUpload.Prepare:120", "blobUpload.Prepare:121", "blobUpload.Run:150", "blobUpload.uploadPart:252", "blobUpload.acquire:308", "blobUpload.release:312", "Server.CreateBlobHandler:1006", "Server.CreateBlobHandler:1015", "Scheduler.load:438", "runnerRef.unload:572", "runnerRef.needsReload:586", "Server.PsHandler:1414", "Scheduler.load:442", "Server.PsHandler:1415", "Scheduler.load:441", "runnerRef.waitForVRAMRecovery$1:660", "Scheduler.processPending:286", "Scheduler.processPending:288", "Scheduler.processCompleted:335", "Scheduler.processCompleted:337", "LlmRequest.useLoadedRunner:399", "LlmRequest.useLoadedRunner:401", "runnerRef.unload:563", "runnerRef.unload:565", "Scheduler.expireRunner:819", "Scheduler.expireRunner:821", "Scheduler.processCompleted$1:346", "Scheduler.processCompleted$1:348", "Server.PsHandler:1418", "Scheduler.processCompleted:352", "Scheduler.expireRunner:818", "Scheduler.load:440", "Scheduler.filterGPUsWithoutLoadingModels:524", "runnerRef.unload:573", "runnerRef.waitForVRAMRecovery:626", "Server.scheduleRunner:117", "Scheduler.load:437", "Scheduler.updateFreeSpace:484", "runnerRef.unload:567", "runnerRef.unload:571", "runnerRef.needsReload:606", "Scheduler.unloadAllRunners:805", "Scheduler.load:443", "Scheduler.filterGPUsWithoutLoadingModels:523", "runnerRef.needsReload:582", "Scheduler.load$1:465", "Server.PsHandler:1402", "Scheduler.load:435", "runnerRef.unload:570", "runnerRef.needsReload:603", "Scheduler.processPending:285", "Scheduler.processPending:298", "Scheduler.processCompleted:334", "Scheduler.processCompleted:362", "Scheduler.processCompleted:377", "Scheduler.load:436", "ByDurationAndName.Less:682", "Scheduler.processCompleted$1:343", "Scheduler.load$1:460", "runnerRef.waitForVRAMRecovery$1:648", "Scheduler.load:446", "runnerRef.needsReload:599", "Scheduler.processCompleted:331", "Scheduler.processCompleted:332", "LlmRequest.useLoadedRunner:398", "Scheduler.load:444", "Scheduler.findRunnerToUnload:789", "Scheduler.expireRunner:824", "Scheduler.load$1:458", "Server.PsHandler:1425", "Scheduler.processPending:290", "Scheduler.processCompleted:333", "LlmRequest.useLoadedRunner:404", "Scheduler.load:439", "ByDurationAndName.Less:676", "Scheduler.expireRunner:823"]
 def hbNames : List String := ["-", "holder (C01: no unload while a request holds the runner)", "doneclose (write before close(done), read after <-done)"]
 
 private def mk (site cls : Nat) (kind : Kind) (locks : List LockRef) (thread : Nat) (single init racy atomic : Bool)
@@ -31,7 +31,7 @@ def accesses : List Access := [
   mk 14 3 .read [] 0 true false false false [] [13] [],  -- 14 Scheduler.getGpuFn Scheduler.processPending:166 @Scheduler.Run$1
   mk 15 4 .write [] 18 true true false false [10, 11] [] [],  -- 15 Scheduler.loadFn InitScheduler:78 @main
   mk 16 4 .read [] 0 true false false false [] [13] [],  -- 16 Scheduler.loadFn Scheduler.processPending:214 @Scheduler.Run$1
-  mk 17 5 .mapIter [] 11 false false false false [] [11] [],  -- 17 Scheduler.loaded Server.PsHandler:1397 @api
+  mk 17 5 .mapIter [⟨0, false⟩] 11 false false false false [] [11] [],  -- 17 Scheduler.loaded Server.PsHandler:1401 @api
   mk 18 5 .write [] 18 true true false false [10, 11] [] [],  -- 18 Scheduler.loaded InitScheduler:72 @main
   mk 19 5 .mapRead [⟨0, false⟩] 0 true false false false [] [13] [],  -- 19 Scheduler.loaded Scheduler.processPending:145 @Scheduler.Run$1
   mk 20 5 .mapRead [⟨0, false⟩] 1 true false false false [] [14] [],  -- 20 Scheduler.loaded Scheduler.processCompleted:324 @Scheduler.Run$2
@@ -61,181 +61,182 @@ def accesses : List Access := [
   mk 44 11 .read [] 11 false false false false [] [11] [],  -- 44 Server.sched Server.GenerateHandler:162 @api
   mk 45 11 .write [] 18 true false false false [10, 11] [] [],  -- 45 Server.sched Serve:1297 @main
   mk 46 11 .read [] 18 true false false false [11] [] [],  -- 46 Server.sched Serve:1323 @main
-  mk 17 11 .read [] 11 false false false false [] [11] [],  -- 47 Server.sched Server.PsHandler:1397 @api
-  mk 47 11 .read [] 11 false false false false [] [11] [],  -- 48 Server.sched Server.ChatHandler:1461 @api
-  mk 48 12 .write [] 16 true false false false [2] [5, 11] [],  -- 49 blobDownload.CancelFunc blobDownload.run:216 @go:downloadBlob:download.Run
-  mk 49 12 .read [] 8 false false false false [] [11] [],  -- 50 blobDownload.CancelFunc blobDownload.release:432 @Server.CreateHandler$1
-  mk 49 12 .read [] 9 false false false false [] [11] [],  -- 51 blobDownload.CancelFunc blobDownload.release:432 @Server.PullHandler$1
-  mk 50 13 .write [] 11 false false false true [] [11] [],  -- 52 blobDownload.Completed blobDownloadPart.Write:119 @api
-  mk 51 13 .write [] 8 false false false true [5] [11] [],  -- 53 blobDownload.Completed blobDownload.Prepare:141 @Server.CreateHandler$1
-  mk 51 13 .write [] 9 false false false true [5] [11] [],  -- 54 blobDownload.Completed blobDownload.Prepare:141 @Server.PullHandler$1
-  mk 52 13 .read [] 8 false false false true [] [11] [],  -- 55 blobDownload.Completed blobDownload.Wait:450 @Server.CreateHandler$1
-  mk 52 13 .read [] 9 false false false true [] [11] [],  -- 56 blobDownload.Completed blobDownload.Wait:450 @Server.PullHandler$1
-  mk 53 13 .write [] 12 false false false true [] [2, 5, 11] [],  -- 57 blobDownload.Completed blobDownload.downloadChunk$1:346 @blobDownload.downloadChunk$1
-  mk 54 14 .read [] 8 false false false false [5] [11] [],  -- 58 blobDownload.Digest blobDownload.Prepare:177 @Server.CreateHandler$1
-  mk 54 14 .read [] 9 false false false false [5] [11] [],  -- 59 blobDownload.Digest blobDownload.Prepare:177 @Server.PullHandler$1
-  mk 55 14 .read [] 16 true false false false [2] [5, 11] [],  -- 60 blobDownload.Digest blobDownload.run:215 @go:downloadBlob:download.Run
-  mk 56 14 .read [] 8 false false false false [] [11] [],  -- 61 blobDownload.Digest blobDownload.Wait:447 @Server.CreateHandler$1
-  mk 56 14 .read [] 9 false false false false [] [11] [],  -- 62 blobDownload.Digest blobDownload.Wait:447 @Server.PullHandler$1
-  mk 57 14 .write [] 8 false true false false [5] [11] [],  -- 63 blobDownload.Digest downloadBlob:488 @Server.CreateHandler$1
-  mk 57 14 .write [] 9 false true false false [5] [11] [],  -- 64 blobDownload.Digest downloadBlob:488 @Server.PullHandler$1
-  mk 58 14 .read [] 14 false false false false [] [2, 5, 11] [],  -- 65 blobDownload.Digest blobDownload.run$2:295 @blobDownload.run$2
-  mk 59 14 .read [] 13 false false false false [] [2, 5, 11] [],  -- 66 blobDownload.Digest blobDownload.downloadChunk$2:374 @blobDownload.downloadChunk$2
-  mk 60 15 .read [] 8 false false false false [] [11] [],  -- 67 blobDownload.Name blobDownloadPart.Name:105 @Server.CreateHandler$1
-  mk 60 15 .read [] 9 false false false false [] [11] [],  -- 68 blobDownload.Name blobDownloadPart.Name:105 @Server.PullHandler$1
-  mk 60 15 .read [] 12 false false false false [] [11] [],  -- 69 blobDownload.Name blobDownloadPart.Name:105 @blobDownload.downloadChunk$1
-  mk 61 15 .read [] 8 false false false false [5] [11] [],  -- 70 blobDownload.Name blobDownload.Prepare:127 @Server.CreateHandler$1
-  mk 61 15 .read [] 9 false false false false [5] [11] [],  -- 71 blobDownload.Name blobDownload.Prepare:127 @Server.PullHandler$1
-  mk 62 15 .read [] 16 true false false false [2] [5, 11] [],  -- 72 blobDownload.Name blobDownload.run:218 @go:downloadBlob:download.Run
-  mk 63 15 .read [] 16 true false false false [] [5, 11] [],  -- 73 blobDownload.Name blobDownload.run:322 @go:downloadBlob:download.Run
-  mk 57 15 .write [] 8 false true false false [5] [11] [],  -- 74 blobDownload.Name downloadBlob:488 @Server.CreateHandler$1
-  mk 57 15 .write [] 9 false true false false [5] [11] [],  -- 75 blobDownload.Name downloadBlob:488 @Server.PullHandler$1
-  mk 64 16 .read [] 8 false false false false [5] [11] [],  -- 76 blobDownload.Parts blobDownload.Prepare:142 @Server.CreateHandler$1
-  mk 64 16 .read [] 9 false false false false [5] [11] [],  -- 77 blobDownload.Parts blobDownload.Prepare:142 @Server.PullHandler$1
-  mk 64 16 .write [] 8 false false false false [5] [11] [],  -- 78 blobDownload.Parts blobDownload.Prepare:142 @Server.CreateHandler$1
-  mk 64 16 .write [] 9 false false false false [5] [11] [],  -- 79 blobDownload.Parts blobDownload.Prepare:142 @Server.PullHandler$1
-  mk 65 16 .read [] 16 true false false false [] [5, 11] [],  -- 80 blobDownload.Parts blobDownload.run:275 @go:downloadBlob:download.Run
-  mk 66 16 .read [] 8 false false false false [5] [11] [],  -- 81 blobDownload.Parts blobDownload.newPart:391 @Server.CreateHandler$1
-  mk 66 16 .read [] 9 false false false false [5] [11] [],  -- 82 blobDownload.Parts blobDownload.newPart:391 @Server.PullHandler$1
-  mk 67 16 .write [] 8 false false false false [5] [11] [],  -- 83 blobDownload.Parts blobDownload.newPart:396 @Server.CreateHandler$1
-  mk 67 16 .write [] 9 false false false false [5] [11] [],  -- 84 blobDownload.Parts blobDownload.newPart:396 @Server.PullHandler$1
-  mk 68 17 .write [] 8 false false false false [5] [11] [],  -- 85 blobDownload.Total blobDownload.Prepare:140 @Server.CreateHandler$1
-  mk 68 17 .write [] 9 false false false false [5] [11] [],  -- 86 blobDownload.Total blobDownload.Prepare:140 @Server.PullHandler$1
-  mk 69 17 .read [] 8 false false false false [5] [11] [],  -- 87 blobDownload.Total blobDownload.Prepare:154 @Server.CreateHandler$1
-  mk 69 17 .read [] 9 false false false false [5] [11] [],  -- 88 blobDownload.Total blobDownload.Prepare:154 @Server.PullHandler$1
-  mk 70 17 .read [] 16 true false false false [2] [5, 11] [],  -- 89 blobDownload.Total blobDownload.run:225 @go:downloadBlob:download.Run
-  mk 71 17 .read [] 8 false false false false [] [11] [],  -- 90 blobDownload.Total blobDownload.Wait:449 @Server.CreateHandler$1
-  mk 71 17 .read [] 9 false false false false [] [11] [],  -- 91 blobDownload.Total blobDownload.Wait:449 @Server.PullHandler$1
-  mk 72 18 .write [] 8 false false false false [5] [11] [],  -- 92 blobDownload.done blobDownload.Prepare:132 @Server.CreateHandler$1
-  mk 72 18 .write [] 9 false false false false [5] [11] [],  -- 93 blobDownload.done blobDownload.Prepare:132 @Server.PullHandler$1
-  mk 73 18 .read [] 16 true false false false [] [5, 11] [],  -- 94 blobDownload.done blobDownload.Run:184 @go:downloadBlob:download.Run
-  mk 74 18 .read [] 8 false false false false [] [11] [2],  -- 95 blobDownload.done blobDownload.Wait:443 @Server.CreateHandler$1
-  mk 74 18 .read [] 9 false false false false [] [11] [2],  -- 96 blobDownload.done blobDownload.Wait:443 @Server.PullHandler$1
-  mk 75 19 .write [] 16 true false false false [] [5, 11] [2],  -- 97 blobDownload.err blobDownload.Run:185 @go:downloadBlob:download.Run
-  mk 76 19 .read [] 8 false false false false [] [11] [2],  -- 98 blobDownload.err blobDownload.Wait:444 @Server.CreateHandler$1
-  mk 76 19 .read [] 9 false false false false [] [11] [2],  -- 99 blobDownload.err blobDownload.Wait:444 @Server.PullHandler$1
-  mk 77 20 .write [] 8 false false false true [] [11] [],  -- 100 blobDownload.references blobDownload.acquire:427 @Server.CreateHandler$1
-  mk 77 20 .write [] 9 false false false true [] [11] [],  -- 101 blobDownload.references blobDownload.acquire:427 @Server.PullHandler$1
-  mk 78 20 .write [] 8 false false false true [] [11] [],  -- 102 blobDownload.references blobDownload.release:431 @Server.CreateHandler$1
-  mk 78 20 .write [] 9 false false false true [] [11] [],  -- 103 blobDownload.references blobDownload.release:431 @Server.PullHandler$1
-  mk 79 21 .write [] 17 true false false false [21] [11, 22] [],  -- 104 blobUpload.CancelFunc blobUpload.Run:129 @go:uploadBlob:upload.Run
-  mk 80 21 .read [] 10 false false false false [] [11] [],  -- 105 blobUpload.CancelFunc blobUpload.release:313 @Server.PushHandler$1
-  mk 81 22 .write [] 10 false false false true [22] [11] [],  -- 106 blobUpload.Completed blobUpload.Prepare:87 @Server.PushHandler$1
-  mk 82 22 .read [] 10 false false false true [] [11] [],  -- 107 blobUpload.Completed blobUpload.Wait:333 @Server.PushHandler$1
-  mk 83 22 .write [] 11 false false false true [] [11] [],  -- 108 blobUpload.Completed progressWriter.Write:358 @api
-  mk 84 22 .write [] 15 false false false true [] [11, 21, 22] [],  -- 109 blobUpload.Completed progressWriter.Rollback:363 @blobUpload.Run$1
-  mk 85 23 .read [] 10 false false false false [22] [11] [],  -- 110 blobUpload.Layer blobUpload.Prepare:54 @Server.PushHandler$1
-  mk 86 23 .read [] 17 true false false false [21] [11, 22] [],  -- 111 blobUpload.Layer blobUpload.Run:128 @go:uploadBlob:upload.Run
-  mk 87 23 .read [] 17 true false false false [] [11, 22] [],  -- 112 blobUpload.Layer blobUpload.Run:189 @go:uploadBlob:upload.Run
-  mk 88 23 .read [] 15 false false false false [] [11, 21, 22] [],  -- 113 blobUpload.Layer blobUpload.uploadPart:269 @blobUpload.Run$1
-  mk 89 23 .read [] 10 false false false false [] [11] [],  -- 114 blobUpload.Layer blobUpload.Wait:330 @Server.PushHandler$1
-  mk 90 23 .write [] 10 false true false false [22] [11] [],  -- 115 blobUpload.Layer uploadBlob:388 @Server.PushHandler$1
-  mk 91 23 .read [] 15 false false false false [] [11, 21, 22] [],  -- 116 blobUpload.Layer blobUpload.Run$1:162 @blobUpload.Run$1
-  mk 92 24 .read [] 10 false false false false [22] [11] [],  -- 117 blobUpload.Parts blobUpload.Prepare:107 @Server.PushHandler$1
-  mk 92 24 .write [] 10 false false false false [22] [11] [],  -- 118 blobUpload.Parts blobUpload.Prepare:107 @Server.PushHandler$1
-  mk 93 24 .read [] 17 true false false false [] [11, 22] [],  -- 119 blobUpload.Parts blobUpload.Run:146 @go:uploadBlob:upload.Run
-  mk 94 25 .write [] 10 false false false false [22] [11] [],  -- 120 blobUpload.Total blobUpload.Prepare:82 @Server.PushHandler$1
-  mk 81 25 .read [] 10 false false false false [22] [11] [],  -- 121 blobUpload.Total blobUpload.Prepare:87 @Server.PushHandler$1
-  mk 95 25 .read [] 10 false false false false [] [11] [],  -- 122 blobUpload.Total blobUpload.Wait:332 @Server.PushHandler$1
-  mk 96 26 .write [] 10 false false false false [22] [11] [],  -- 123 blobUpload.done blobUpload.Prepare:88 @Server.PushHandler$1
-  mk 97 26 .write [] 17 true false false false [] [11, 22] [],  -- 124 blobUpload.done blobUpload.Run:213 @go:uploadBlob:upload.Run
-  mk 98 26 .read [] 10 false false false false [] [11] [],  -- 125 blobUpload.done blobUpload.Wait:336 @Server.PushHandler$1
-  mk 99 27 .write [] 17 true false false false [21] [11, 22] [],  -- 126 blobUpload.err blobUpload.Run:133 @go:uploadBlob:upload.Run
-  mk 100 27 .write [] 17 true false false false [] [11, 22] [],  -- 127 blobUpload.err blobUpload.Run:176 @go:uploadBlob:upload.Run
-  mk 98 27 .read [] 10 false false false false [] [11] [],  -- 128 blobUpload.err blobUpload.Wait:336 @Server.PushHandler$1
-  mk 101 28 .write [] 17 true false false false [21] [11, 22] [],  -- 129 blobUpload.file blobUpload.Run:137 @go:uploadBlob:upload.Run
-  mk 102 28 .read [] 17 true false false false [21] [11, 22] [],  -- 130 blobUpload.file blobUpload.Run:142 @go:uploadBlob:upload.Run
-  mk 103 28 .read [] 15 false false false false [] [11, 21, 22] [],  -- 131 blobUpload.file blobUpload.uploadPart:226 @blobUpload.Run$1
-  mk 104 29 .write [] 10 false false false false [22] [11] [],  -- 132 blobUpload.nextURL blobUpload.Prepare:120 @Server.PushHandler$1
-  mk 105 29 .read [] 10 false false false false [22] [11] [],  -- 133 blobUpload.nextURL blobUpload.Prepare:121 @Server.PushHandler$1
-  mk 106 29 .read [] 17 true false false false [] [11, 22] [],  -- 134 blobUpload.nextURL blobUpload.Run:150 @go:uploadBlob:upload.Run
-  mk 107 29 .read [] 15 false false false false [] [11, 21, 22] [],  -- 135 blobUpload.nextURL blobUpload.uploadPart:252 @blobUpload.Run$1
-  mk 108 30 .write [] 10 false false false true [] [11] [],  -- 136 blobUpload.references blobUpload.acquire:308 @Server.PushHandler$1
-  mk 109 30 .write [] 10 false false false true [] [11] [],  -- 137 blobUpload.references blobUpload.release:312 @Server.PushHandler$1
-  mk 55 31 .write [] 16 false false false true [] [11] [],  -- 138 global.blobDownloadManager blobDownload.run:215 @go:downloadBlob:download.Run
-  mk 57 31 .write [] 8 false false false true [] [11] [],  -- 139 global.blobDownloadManager downloadBlob:488 @Server.CreateHandler$1
-  mk 57 31 .write [] 9 false false false true [] [11] [],  -- 140 global.blobDownloadManager downloadBlob:488 @Server.PullHandler$1
-  mk 86 32 .write [] 17 false false false true [] [11] [],  -- 141 global.blobUploadManager blobUpload.Run:128 @go:uploadBlob:upload.Run
-  mk 90 32 .write [] 10 false false false true [] [11] [],  -- 142 global.blobUploadManager uploadBlob:388 @Server.PushHandler$1
-  mk 110 33 .mapRead [] 11 false false false false [] [11] [],  -- 143 global.intermediateBlobs Server.CreateBlobHandler:1006 @api
-  mk 111 33 .mapDelete [] 11 false false false false [] [11] [],  -- 144 global.intermediateBlobs Server.CreateBlobHandler:1015 @api
-  mk 112 34 .write [] 0 true true false false [] [13] [],  -- 145 runnerRef.Options Scheduler.load:438 @Scheduler.Run$1
-  mk 113 34 .write [⟨0, false⟩, ⟨1, true⟩] 1 true false false false [] [14] [1],  -- 146 runnerRef.Options runnerRef.unload:572 @Scheduler.Run$2
-  mk 114 34 .read [⟨1, true⟩] 0 true false false false [] [13] [],  -- 147 runnerRef.Options runnerRef.needsReload:586 @Scheduler.Run$1
-  mk 115 35 .read [] 11 false false true false [] [11] [],  -- 148 runnerRef.estimatedTotal Server.PsHandler:1410 @api
-  mk 116 35 .write [] 0 true true false false [] [13] [],  -- 149 runnerRef.estimatedTotal Scheduler.load:442 @Scheduler.Run$1
-  mk 117 36 .read [] 11 false false true false [] [11] [],  -- 150 runnerRef.estimatedVRAM Server.PsHandler:1411 @api
-  mk 118 36 .write [] 0 true true false false [] [13] [],  -- 151 runnerRef.estimatedVRAM Scheduler.load:441 @Scheduler.Run$1
-  mk 119 36 .read [] 19 false false false false [] [14] [],  -- 152 runnerRef.estimatedVRAM runnerRef.waitForVRAMRecovery$1:660 @runnerRef.waitForVRAMRecovery$1
-  mk 120 37 .read [⟨1, true⟩] 0 true false false false [] [13] [],  -- 153 runnerRef.expireTimer Scheduler.processPending:286 @Scheduler.Run$1
-  mk 121 37 .write [⟨1, true⟩] 0 true false false false [] [13] [],  -- 154 runnerRef.expireTimer Scheduler.processPending:288 @Scheduler.Run$1
-  mk 122 37 .read [⟨1, true⟩] 1 true false false false [] [14] [],  -- 155 runnerRef.expireTimer Scheduler.processCompleted:335 @Scheduler.Run$2
-  mk 123 37 .write [⟨1, true⟩] 1 true false false false [] [14] [],  -- 156 runnerRef.expireTimer Scheduler.processCompleted:337 @Scheduler.Run$2
-  mk 124 37 .read [⟨1, true⟩] 0 true false false false [] [13] [],  -- 157 runnerRef.expireTimer LlmRequest.useLoadedRunner:399 @Scheduler.Run$1
-  mk 125 37 .write [⟨1, true⟩] 0 true false false false [] [13] [],  -- 158 runnerRef.expireTimer LlmRequest.useLoadedRunner:401 @Scheduler.Run$1
-  mk 126 37 .read [⟨0, false⟩, ⟨1, true⟩] 1 true false false false [] [14] [1],  -- 159 runnerRef.expireTimer runnerRef.unload:563 @Scheduler.Run$2
-  mk 127 37 .write [⟨0, false⟩, ⟨1, true⟩] 1 true false false false [] [14] [1],  -- 160 runnerRef.expireTimer runnerRef.unload:565 @Scheduler.Run$2
-  mk 128 37 .read [⟨0, false⟩, ⟨1, true⟩] 11 false false false false [] [11] [],  -- 161 runnerRef.expireTimer Scheduler.expireRunner:819 @api
-  mk 129 37 .write [⟨0, false⟩, ⟨1, true⟩] 11 false false false false [] [11] [],  -- 162 runnerRef.expireTimer Scheduler.expireRunner:821 @api
-  mk 130 37 .read [⟨1, true⟩] 4 false false false false [] [14] [],  -- 163 runnerRef.expireTimer Scheduler.processCompleted$1:346 @Scheduler.processCompleted$1
-  mk 131 37 .write [⟨1, true⟩] 4 false false false false [] [14] [],  -- 164 runnerRef.expireTimer Scheduler.processCompleted$1:348 @Scheduler.processCompleted$1
-  mk 132 38 .read [] 11 false false true false [] [11] [],  -- 165 runnerRef.expiresAt Server.PsHandler:1414 @api
-  mk 133 38 .write [⟨1, true⟩] 1 true false false false [] [14] [],  -- 166 runnerRef.expiresAt Scheduler.processCompleted:352 @Scheduler.Run$2
-  mk 134 38 .write [⟨0, false⟩, ⟨1, true⟩] 11 false false false false [] [11] [],  -- 167 runnerRef.expiresAt Scheduler.expireRunner:818 @api
-  mk 135 39 .write [] 0 true true false false [] [13] [],  -- 168 runnerRef.gpus Scheduler.load:440 @Scheduler.Run$1
-  mk 136 39 .read [⟨0, false⟩] 0 true false false false [] [13] [],  -- 169 runnerRef.gpus Scheduler.filterGPUsWithoutLoadingModels:524 @Scheduler.Run$1
-  mk 137 39 .write [⟨0, false⟩, ⟨1, true⟩] 1 true false false false [] [14] [1],  -- 170 runnerRef.gpus runnerRef.unload:573 @Scheduler.Run$2
-  mk 138 39 .read [⟨0, false⟩, ⟨1, true⟩] 1 true false false false [] [14] [],  -- 171 runnerRef.gpus runnerRef.waitForVRAMRecovery:626 @Scheduler.Run$2
-  mk 139 40 .read [] 11 false false false false [] [11] [1],  -- 172 runnerRef.llama Server.scheduleRunner:117 @api
-  mk 140 40 .write [] 0 true true false false [] [13] [],  -- 173 runnerRef.llama Scheduler.load:437 @Scheduler.Run$1
-  mk 141 40 .read [⟨0, false⟩, ⟨1, true⟩] 0 true false false false [] [13] [],  -- 174 runnerRef.llama Scheduler.updateFreeSpace:484 @Scheduler.Run$1
-  mk 142 40 .read [⟨0, false⟩, ⟨1, true⟩] 1 true false false false [] [14] [1],  -- 175 runnerRef.llama runnerRef.unload:567 @Scheduler.Run$2
-  mk 143 40 .write [⟨0, false⟩, ⟨1, true⟩] 1 true false false false [] [14] [1],  -- 176 runnerRef.llama runnerRef.unload:571 @Scheduler.Run$2
-  mk 144 40 .read [⟨1, true⟩] 0 true false false false [] [13] [],  -- 177 runnerRef.llama runnerRef.needsReload:606 @Scheduler.Run$1
-  mk 145 40 .read [⟨0, false⟩] 7 true false false false [] [10] [],  -- 178 runnerRef.llama Scheduler.unloadAllRunners:805 @Serve$2
-  mk 146 41 .write [] 0 true true false false [] [13] [],  -- 179 runnerRef.loading Scheduler.load:443 @Scheduler.Run$1
-  mk 147 41 .read [⟨0, false⟩] 0 true false false false [] [13] [],  -- 180 runnerRef.loading Scheduler.filterGPUsWithoutLoadingModels:523 @Scheduler.Run$1
-  mk 148 41 .read [⟨1, true⟩] 0 true false false false [] [13] [],  -- 181 runnerRef.loading runnerRef.needsReload:582 @Scheduler.Run$1
-  mk 149 41 .write [⟨1, true⟩] 2 false false false false [] [13] [],  -- 182 runnerRef.loading Scheduler.load$1:465 @Scheduler.load$1
-  mk 150 42 .read [] 11 false false true false [] [11] [],  -- 183 runnerRef.model Server.PsHandler:1398 @api
-  mk 151 42 .write [] 0 true true false false [] [13] [],  -- 184 runnerRef.model Scheduler.load:435 @Scheduler.Run$1
-  mk 152 42 .write [⟨0, false⟩, ⟨1, true⟩] 1 true false false false [] [14] [1],  -- 185 runnerRef.model runnerRef.unload:570 @Scheduler.Run$2
-  mk 153 42 .read [⟨1, true⟩] 0 true false false false [] [13] [],  -- 186 runnerRef.model runnerRef.needsReload:603 @Scheduler.Run$1
-  mk 154 43 .read [⟨1, true⟩] 0 true false false false [] [13] [],  -- 187 runnerRef.modelPath Scheduler.processPending:285 @Scheduler.Run$1
-  mk 155 43 .read [] 0 true false false false [] [13] [],  -- 188 runnerRef.modelPath Scheduler.processPending:298 @Scheduler.Run$1
-  mk 156 43 .read [⟨1, true⟩] 1 true false false false [] [14] [],  -- 189 runnerRef.modelPath Scheduler.processCompleted:334 @Scheduler.Run$2
-  mk 157 43 .read [] 1 true false false false [] [14] [],  -- 190 runnerRef.modelPath Scheduler.processCompleted:362 @Scheduler.Run$2
-  mk 158 43 .read [⟨0, false⟩, ⟨1, true⟩] 1 true false false false [] [14] [],  -- 191 runnerRef.modelPath Scheduler.processCompleted:377 @Scheduler.Run$2
-  mk 159 43 .write [] 0 true true false false [] [13] [],  -- 192 runnerRef.modelPath Scheduler.load:436 @Scheduler.Run$1
-  mk 136 43 .read [⟨0, false⟩] 0 true false false false [] [13] [],  -- 193 runnerRef.modelPath Scheduler.filterGPUsWithoutLoadingModels:524 @Scheduler.Run$1
-  mk 160 43 .read [] 0 true false false false [] [13] [],  -- 194 runnerRef.modelPath ByDurationAndName.Less:682 @Scheduler.Run$1
-  mk 161 43 .read [] 4 false false false false [] [14] [],  -- 195 runnerRef.modelPath Scheduler.processCompleted$1:343 @Scheduler.processCompleted$1
-  mk 162 43 .read [⟨1, true⟩] 2 false false false false [] [13] [],  -- 196 runnerRef.modelPath Scheduler.load$1:460 @Scheduler.load$1
-  mk 163 43 .read [] 19 false false false false [] [14] [],  -- 197 runnerRef.modelPath runnerRef.waitForVRAMRecovery$1:648 @runnerRef.waitForVRAMRecovery$1
-  mk 164 44 .write [] 0 true true false false [] [13] [],  -- 198 runnerRef.numParallel Scheduler.load:446 @Scheduler.Run$1
-  mk 165 44 .read [⟨1, true⟩] 0 true false false false [] [13] [],  -- 199 runnerRef.numParallel runnerRef.needsReload:599 @Scheduler.Run$1
-  mk 154 45 .read [⟨1, true⟩] 0 true false false false [] [13] [],  -- 200 runnerRef.refCount Scheduler.processPending:285 @Scheduler.Run$1
-  mk 166 45 .write [⟨1, true⟩] 1 true false false false [] [14] [],  -- 201 runnerRef.refCount Scheduler.processCompleted:331 @Scheduler.Run$2
-  mk 167 45 .read [⟨1, true⟩] 1 true false false false [] [14] [],  -- 202 runnerRef.refCount Scheduler.processCompleted:332 @Scheduler.Run$2
-  mk 168 45 .write [⟨1, true⟩] 0 true false false false [] [13] [],  -- 203 runnerRef.refCount LlmRequest.useLoadedRunner:398 @Scheduler.Run$1
-  mk 169 45 .write [] 0 true true false false [] [13] [],  -- 204 runnerRef.refCount Scheduler.load:444 @Scheduler.Run$1
-  mk 170 45 .read [⟨1, true⟩] 0 true false false false [] [13] [],  -- 205 runnerRef.refCount Scheduler.findRunnerToUnload:789 @Scheduler.Run$1
-  mk 171 45 .read [⟨0, false⟩, ⟨1, true⟩] 11 false false false false [] [11] [],  -- 206 runnerRef.refCount Scheduler.expireRunner:824 @api
-  mk 172 45 .write [⟨1, true⟩] 2 false false false false [] [13] [],  -- 207 runnerRef.refCount Scheduler.load$1:458 @Scheduler.load$1
-  mk 173 46 .read [] 11 false false true false [] [11] [],  -- 208 runnerRef.sessionDuration Server.PsHandler:1421 @api
-  mk 174 46 .write [⟨1, true⟩] 0 true false false false [] [13] [],  -- 209 runnerRef.sessionDuration Scheduler.processPending:290 @Scheduler.Run$1
-  mk 175 46 .read [⟨1, true⟩] 1 true false false false [] [14] [],  -- 210 runnerRef.sessionDuration Scheduler.processCompleted:333 @Scheduler.Run$2
-  mk 176 46 .write [⟨1, true⟩] 0 true false false false [] [13] [],  -- 211 runnerRef.sessionDuration LlmRequest.useLoadedRunner:404 @Scheduler.Run$1
-  mk 177 46 .write [] 0 true true false false [] [13] [],  -- 212 runnerRef.sessionDuration Scheduler.load:439 @Scheduler.Run$1
-  mk 178 46 .read [] 0 true false false false [] [13] [],  -- 213 runnerRef.sessionDuration ByDurationAndName.Less:676 @Scheduler.Run$1
-  mk 179 46 .write [⟨0, false⟩, ⟨1, true⟩] 11 false false false false [] [11] []  -- 214 runnerRef.sessionDuration Scheduler.expireRunner:823 @api
+  mk 47 11 .read [] 11 false false false false [] [11] [],  -- 47 Server.sched Server.PsHandler:1400 @api
+  mk 17 11 .read [⟨0, false⟩] 11 false false false false [] [11] [],  -- 48 Server.sched Server.PsHandler:1401 @api
+  mk 48 11 .read [] 11 false false false false [] [11] [],  -- 49 Server.sched Server.ChatHandler:1466 @api
+  mk 49 12 .write [] 16 true false false false [2] [5, 11] [],  -- 50 blobDownload.CancelFunc blobDownload.run:216 @go:downloadBlob:download.Run
+  mk 50 12 .read [] 8 false false false false [] [11] [],  -- 51 blobDownload.CancelFunc blobDownload.release:432 @Server.CreateHandler$1
+  mk 50 12 .read [] 9 false false false false [] [11] [],  -- 52 blobDownload.CancelFunc blobDownload.release:432 @Server.PullHandler$1
+  mk 51 13 .write [] 11 false false false true [] [11] [],  -- 53 blobDownload.Completed blobDownloadPart.Write:119 @api
+  mk 52 13 .write [] 8 false false false true [5] [11] [],  -- 54 blobDownload.Completed blobDownload.Prepare:141 @Server.CreateHandler$1
+  mk 52 13 .write [] 9 false false false true [5] [11] [],  -- 55 blobDownload.Completed blobDownload.Prepare:141 @Server.PullHandler$1
+  mk 53 13 .read [] 8 false false false true [] [11] [],  -- 56 blobDownload.Completed blobDownload.Wait:450 @Server.CreateHandler$1
+  mk 53 13 .read [] 9 false false false true [] [11] [],  -- 57 blobDownload.Completed blobDownload.Wait:450 @Server.PullHandler$1
+  mk 54 13 .write [] 12 false false false true [] [2, 5, 11] [],  -- 58 blobDownload.Completed blobDownload.downloadChunk$1:346 @blobDownload.downloadChunk$1
+  mk 55 14 .read [] 8 false false false false [5] [11] [],  -- 59 blobDownload.Digest blobDownload.Prepare:177 @Server.CreateHandler$1
+  mk 55 14 .read [] 9 false false false false [5] [11] [],  -- 60 blobDownload.Digest blobDownload.Prepare:177 @Server.PullHandler$1
+  mk 56 14 .read [] 16 true false false false [2] [5, 11] [],  -- 61 blobDownload.Digest blobDownload.run:215 @go:downloadBlob:download.Run
+  mk 57 14 .read [] 8 false false false false [] [11] [],  -- 62 blobDownload.Digest blobDownload.Wait:447 @Server.CreateHandler$1
+  mk 57 14 .read [] 9 false false false false [] [11] [],  -- 63 blobDownload.Digest blobDownload.Wait:447 @Server.PullHandler$1
+  mk 58 14 .write [] 8 false true false false [5] [11] [],  -- 64 blobDownload.Digest downloadBlob:488 @Server.CreateHandler$1
+  mk 58 14 .write [] 9 false true false false [5] [11] [],  -- 65 blobDownload.Digest downloadBlob:488 @Server.PullHandler$1
+  mk 59 14 .read [] 14 false false false false [] [2, 5, 11] [],  -- 66 blobDownload.Digest blobDownload.run$2:295 @blobDownload.run$2
+  mk 60 14 .read [] 13 false false false false [] [2, 5, 11] [],  -- 67 blobDownload.Digest blobDownload.downloadChunk$2:374 @blobDownload.downloadChunk$2
+  mk 61 15 .read [] 8 false false false false [] [11] [],  -- 68 blobDownload.Name blobDownloadPart.Name:105 @Server.CreateHandler$1
+  mk 61 15 .read [] 9 false false false false [] [11] [],  -- 69 blobDownload.Name blobDownloadPart.Name:105 @Server.PullHandler$1
+  mk 61 15 .read [] 12 false false false false [] [11] [],  -- 70 blobDownload.Name blobDownloadPart.Name:105 @blobDownload.downloadChunk$1
+  mk 62 15 .read [] 8 false false false false [5] [11] [],  -- 71 blobDownload.Name blobDownload.Prepare:127 @Server.CreateHandler$1
+  mk 62 15 .read [] 9 false false false false [5] [11] [],  -- 72 blobDownload.Name blobDownload.Prepare:127 @Server.PullHandler$1
+  mk 63 15 .read [] 16 true false false false [2] [5, 11] [],  -- 73 blobDownload.Name blobDownload.run:218 @go:downloadBlob:download.Run
+  mk 64 15 .read [] 16 true false false false [] [5, 11] [],  -- 74 blobDownload.Name blobDownload.run:322 @go:downloadBlob:download.Run
+  mk 58 15 .write [] 8 false true false false [5] [11] [],  -- 75 blobDownload.Name downloadBlob:488 @Server.CreateHandler$1
+  mk 58 15 .write [] 9 false true false false [5] [11] [],  -- 76 blobDownload.Name downloadBlob:488 @Server.PullHandler$1
+  mk 65 16 .read [] 8 false false false false [5] [11] [],  -- 77 blobDownload.Parts blobDownload.Prepare:142 @Server.CreateHandler$1
+  mk 65 16 .read [] 9 false false false false [5] [11] [],  -- 78 blobDownload.Parts blobDownload.Prepare:142 @Server.PullHandler$1
+  mk 65 16 .write [] 8 false false false false [5] [11] [],  -- 79 blobDownload.Parts blobDownload.Prepare:142 @Server.CreateHandler$1
+  mk 65 16 .write [] 9 false false false false [5] [11] [],  -- 80 blobDownload.Parts blobDownload.Prepare:142 @Server.PullHandler$1
+  mk 66 16 .read [] 16 true false false false [] [5, 11] [],  -- 81 blobDownload.Parts blobDownload.run:275 @go:downloadBlob:download.Run
+  mk 67 16 .read [] 8 false false false false [5] [11] [],  -- 82 blobDownload.Parts blobDownload.newPart:391 @Server.CreateHandler$1
+  mk 67 16 .read [] 9 false false false false [5] [11] [],  -- 83 blobDownload.Parts blobDownload.newPart:391 @Server.PullHandler$1
+  mk 68 16 .write [] 8 false false false false [5] [11] [],  -- 84 blobDownload.Parts blobDownload.newPart:396 @Server.CreateHandler$1
+  mk 68 16 .write [] 9 false false false false [5] [11] [],  -- 85 blobDownload.Parts blobDownload.newPart:396 @Server.PullHandler$1
+  mk 69 17 .write [] 8 false false false false [5] [11] [],  -- 86 blobDownload.Total blobDownload.Prepare:140 @Server.CreateHandler$1
+  mk 69 17 .write [] 9 false false false false [5] [11] [],  -- 87 blobDownload.Total blobDownload.Prepare:140 @Server.PullHandler$1
+  mk 70 17 .read [] 8 false false false false [5] [11] [],  -- 88 blobDownload.Total blobDownload.Prepare:154 @Server.CreateHandler$1
+  mk 70 17 .read [] 9 false false false false [5] [11] [],  -- 89 blobDownload.Total blobDownload.Prepare:154 @Server.PullHandler$1
+  mk 71 17 .read [] 16 true false false false [2] [5, 11] [],  -- 90 blobDownload.Total blobDownload.run:225 @go:downloadBlob:download.Run
+  mk 72 17 .read [] 8 false false false false [] [11] [],  -- 91 blobDownload.Total blobDownload.Wait:449 @Server.CreateHandler$1
+  mk 72 17 .read [] 9 false false false false [] [11] [],  -- 92 blobDownload.Total blobDownload.Wait:449 @Server.PullHandler$1
+  mk 73 18 .write [] 8 false false false false [5] [11] [],  -- 93 blobDownload.done blobDownload.Prepare:132 @Server.CreateHandler$1
+  mk 73 18 .write [] 9 false false false false [5] [11] [],  -- 94 blobDownload.done blobDownload.Prepare:132 @Server.PullHandler$1
+  mk 74 18 .read [] 16 true false false false [] [5, 11] [],  -- 95 blobDownload.done blobDownload.Run:184 @go:downloadBlob:download.Run
+  mk 75 18 .read [] 8 false false false false [] [11] [2],  -- 96 blobDownload.done blobDownload.Wait:443 @Server.CreateHandler$1
+  mk 75 18 .read [] 9 false false false false [] [11] [2],  -- 97 blobDownload.done blobDownload.Wait:443 @Server.PullHandler$1
+  mk 76 19 .write [] 16 true false false false [] [5, 11] [2],  -- 98 blobDownload.err blobDownload.Run:185 @go:downloadBlob:download.Run
+  mk 77 19 .read [] 8 false false false false [] [11] [2],  -- 99 blobDownload.err blobDownload.Wait:444 @Server.CreateHandler$1
+  mk 77 19 .read [] 9 false false false false [] [11] [2],  -- 100 blobDownload.err blobDownload.Wait:444 @Server.PullHandler$1
+  mk 78 20 .write [] 8 false false false true [] [11] [],  -- 101 blobDownload.references blobDownload.acquire:427 @Server.CreateHandler$1
+  mk 78 20 .write [] 9 false false false true [] [11] [],  -- 102 blobDownload.references blobDownload.acquire:427 @Server.PullHandler$1
+  mk 79 20 .write [] 8 false false false true [] [11] [],  -- 103 blobDownload.references blobDownload.release:431 @Server.CreateHandler$1
+  mk 79 20 .write [] 9 false false false true [] [11] [],  -- 104 blobDownload.references blobDownload.release:431 @Server.PullHandler$1
+  mk 80 21 .write [] 17 true false false false [21] [11, 22] [],  -- 105 blobUpload.CancelFunc blobUpload.Run:129 @go:uploadBlob:upload.Run
+  mk 81 21 .read [] 10 false false false false [] [11] [],  -- 106 blobUpload.CancelFunc blobUpload.release:313 @Server.PushHandler$1
+  mk 82 22 .write [] 10 false false false true [22] [11] [],  -- 107 blobUpload.Completed blobUpload.Prepare:87 @Server.PushHandler$1
+  mk 83 22 .read [] 10 false false false true [] [11] [],  -- 108 blobUpload.Completed blobUpload.Wait:333 @Server.PushHandler$1
+  mk 84 22 .write [] 11 false false false true [] [11] [],  -- 109 blobUpload.Completed progressWriter.Write:358 @api
+  mk 85 22 .write [] 15 false false false true [] [11, 21, 22] [],  -- 110 blobUpload.Completed progressWriter.Rollback:363 @blobUpload.Run$1
+  mk 86 23 .read [] 10 false false false false [22] [11] [],  -- 111 blobUpload.Layer blobUpload.Prepare:54 @Server.PushHandler$1
+  mk 87 23 .read [] 17 true false false false [21] [11, 22] [],  -- 112 blobUpload.Layer blobUpload.Run:128 @go:uploadBlob:upload.Run
+  mk 88 23 .read [] 17 true false false false [] [11, 22] [],  -- 113 blobUpload.Layer blobUpload.Run:189 @go:uploadBlob:upload.Run
+  mk 89 23 .read [] 15 false false false false [] [11, 21, 22] [],  -- 114 blobUpload.Layer blobUpload.uploadPart:269 @blobUpload.Run$1
+  mk 90 23 .read [] 10 false false false false [] [11] [],  -- 115 blobUpload.Layer blobUpload.Wait:330 @Server.PushHandler$1
+  mk 91 23 .write [] 10 false true false false [22] [11] [],  -- 116 blobUpload.Layer uploadBlob:388 @Server.PushHandler$1
+  mk 92 23 .read [] 15 false false false false [] [11, 21, 22] [],  -- 117 blobUpload.Layer blobUpload.Run$1:162 @blobUpload.Run$1
+  mk 93 24 .read [] 10 false false false false [22] [11] [],  -- 118 blobUpload.Parts blobUpload.Prepare:107 @Server.PushHandler$1
+  mk 93 24 .write [] 10 false false false false [22] [11] [],  -- 119 blobUpload.Parts blobUpload.Prepare:107 @Server.PushHandler$1
+  mk 94 24 .read [] 17 true false false false [] [11, 22] [],  -- 120 blobUpload.Parts blobUpload.Run:146 @go:uploadBlob:upload.Run
+  mk 95 25 .write [] 10 false false false false [22] [11] [],  -- 121 blobUpload.Total blobUpload.Prepare:82 @Server.PushHandler$1
+  mk 82 25 .read [] 10 false false false false [22] [11] [],  -- 122 blobUpload.Total blobUpload.Prepare:87 @Server.PushHandler$1
+  mk 96 25 .read [] 10 false false false false [] [11] [],  -- 123 blobUpload.Total blobUpload.Wait:332 @Server.PushHandler$1
+  mk 97 26 .write [] 10 false false false false [22] [11] [],  -- 124 blobUpload.done blobUpload.Prepare:88 @Server.PushHandler$1
+  mk 98 26 .write [] 17 true false false false [] [11, 22] [],  -- 125 blobUpload.done blobUpload.Run:213 @go:uploadBlob:upload.Run
+  mk 99 26 .read [] 10 false false false false [] [11] [],  -- 126 blobUpload.done blobUpload.Wait:336 @Server.PushHandler$1
+  mk 100 27 .write [] 17 true false false false [21] [11, 22] [],  -- 127 blobUpload.err blobUpload.Run:133 @go:uploadBlob:upload.Run
+  mk 101 27 .write [] 17 true false false false [] [11, 22] [],  -- 128 blobUpload.err blobUpload.Run:176 @go:uploadBlob:upload.Run
+  mk 99 27 .read [] 10 false false false false [] [11] [],  -- 129 blobUpload.err blobUpload.Wait:336 @Server.PushHandler$1
+  mk 102 28 .write [] 17 true false false false [21] [11, 22] [],  -- 130 blobUpload.file blobUpload.Run:137 @go:uploadBlob:upload.Run
+  mk 103 28 .read [] 17 true false false false [21] [11, 22] [],  -- 131 blobUpload.file blobUpload.Run:142 @go:uploadBlob:upload.Run
+  mk 104 28 .read [] 15 false false false false [] [11, 21, 22] [],  -- 132 blobUpload.file blobUpload.uploadPart:226 @blobUpload.Run$1
+  mk 105 29 .write [] 10 false false false false [22] [11] [],  -- 133 blobUpload.nextURL blobUpload.Prepare:120 @Server.PushHandler$1
+  mk 106 29 .read [] 10 false false false false [22] [11] [],  -- 134 blobUpload.nextURL blobUpload.Prepare:121 @Server.PushHandler$1
+  mk 107 29 .read [] 17 true false false false [] [11, 22] [],  -- 135 blobUpload.nextURL blobUpload.Run:150 @go:uploadBlob:upload.Run
+  mk 108 29 .read [] 15 false false false false [] [11, 21, 22] [],  -- 136 blobUpload.nextURL blobUpload.uploadPart:252 @blobUpload.Run$1
+  mk 109 30 .write [] 10 false false false true [] [11] [],  -- 137 blobUpload.references blobUpload.acquire:308 @Server.PushHandler$1
+  mk 110 30 .write [] 10 false false false true [] [11] [],  -- 138 blobUpload.references blobUpload.release:312 @Server.PushHandler$1
+  mk 56 31 .write [] 16 false false false true [] [11] [],  -- 139 global.blobDownloadManager blobDownload.run:215 @go:downloadBlob:download.Run
+  mk 58 31 .write [] 8 false false false true [] [11] [],  -- 140 global.blobDownloadManager downloadBlob:488 @Server.CreateHandler$1
+  mk 58 31 .write [] 9 false false false true [] [11] [],  -- 141 global.blobDownloadManager downloadBlob:488 @Server.PullHandler$1
+  mk 87 32 .write [] 17 false false false true [] [11] [],  -- 142 global.blobUploadManager blobUpload.Run:128 @go:uploadBlob:upload.Run
+  mk 91 32 .write [] 10 false false false true [] [11] [],  -- 143 global.blobUploadManager uploadBlob:388 @Server.PushHandler$1
+  mk 111 33 .mapRead [] 11 false false false false [] [11] [],  -- 144 global.intermediateBlobs Server.CreateBlobHandler:1006 @api
+  mk 112 33 .mapDelete [] 11 false false false false [] [11] [],  -- 145 global.intermediateBlobs Server.CreateBlobHandler:1015 @api
+  mk 113 34 .write [] 0 true true false false [] [13] [],  -- 146 runnerRef.Options Scheduler.load:438 @Scheduler.Run$1
+  mk 114 34 .write [⟨0, false⟩, ⟨1, true⟩] 1 true false false false [] [14] [1],  -- 147 runnerRef.Options runnerRef.unload:572 @Scheduler.Run$2
+  mk 115 34 .read [⟨1, true⟩] 0 true false false false [] [13] [],  -- 148 runnerRef.Options runnerRef.needsReload:586 @Scheduler.Run$1
+  mk 116 35 .read [⟨0, false⟩] 11 false false false false [] [11] [],  -- 149 runnerRef.estimatedTotal Server.PsHandler:1414 @api
+  mk 117 35 .write [] 0 true true false false [] [13] [],  -- 150 runnerRef.estimatedTotal Scheduler.load:442 @Scheduler.Run$1
+  mk 118 36 .read [⟨0, false⟩] 11 false false false false [] [11] [],  -- 151 runnerRef.estimatedVRAM Server.PsHandler:1415 @api
+  mk 119 36 .write [] 0 true true false false [] [13] [],  -- 152 runnerRef.estimatedVRAM Scheduler.load:441 @Scheduler.Run$1
+  mk 120 36 .read [] 19 false false false false [] [14] [],  -- 153 runnerRef.estimatedVRAM runnerRef.waitForVRAMRecovery$1:660 @runnerRef.waitForVRAMRecovery$1
+  mk 121 37 .read [⟨1, true⟩] 0 true false false false [] [13] [],  -- 154 runnerRef.expireTimer Scheduler.processPending:286 @Scheduler.Run$1
+  mk 122 37 .write [⟨1, true⟩] 0 true false false false [] [13] [],  -- 155 runnerRef.expireTimer Scheduler.processPending:288 @Scheduler.Run$1
+  mk 123 37 .read [⟨1, true⟩] 1 true false false false [] [14] [],  -- 156 runnerRef.expireTimer Scheduler.processCompleted:335 @Scheduler.Run$2
+  mk 124 37 .write [⟨1, true⟩] 1 true false false false [] [14] [],  -- 157 runnerRef.expireTimer Scheduler.processCompleted:337 @Scheduler.Run$2
+  mk 125 37 .read [⟨1, true⟩] 0 true false false false [] [13] [],  -- 158 runnerRef.expireTimer LlmRequest.useLoadedRunner:399 @Scheduler.Run$1
+  mk 126 37 .write [⟨1, true⟩] 0 true false false false [] [13] [],  -- 159 runnerRef.expireTimer LlmRequest.useLoadedRunner:401 @Scheduler.Run$1
+  mk 127 37 .read [⟨0, false⟩, ⟨1, true⟩] 1 true false false false [] [14] [1],  -- 160 runnerRef.expireTimer runnerRef.unload:563 @Scheduler.Run$2
+  mk 128 37 .write [⟨0, false⟩, ⟨1, true⟩] 1 true false false false [] [14] [1],  -- 161 runnerRef.expireTimer runnerRef.unload:565 @Scheduler.Run$2
+  mk 129 37 .read [⟨0, false⟩, ⟨1, true⟩] 11 false false false false [] [11] [],  -- 162 runnerRef.expireTimer Scheduler.expireRunner:819 @api
+  mk 130 37 .write [⟨0, false⟩, ⟨1, true⟩] 11 false false false false [] [11] [],  -- 163 runnerRef.expireTimer Scheduler.expireRunner:821 @api
+  mk 131 37 .read [⟨1, true⟩] 4 false false false false [] [14] [],  -- 164 runnerRef.expireTimer Scheduler.processCompleted$1:346 @Scheduler.processCompleted$1
+  mk 132 37 .write [⟨1, true⟩] 4 false false false false [] [14] [],  -- 165 runnerRef.expireTimer Scheduler.processCompleted$1:348 @Scheduler.processCompleted$1
+  mk 133 38 .read [⟨0, false⟩] 11 false false false false [] [11] [],  -- 166 runnerRef.expiresAt Server.PsHandler:1418 @api
+  mk 134 38 .write [⟨1, true⟩] 1 true false false false [] [14] [],  -- 167 runnerRef.expiresAt Scheduler.processCompleted:352 @Scheduler.Run$2
+  mk 135 38 .write [⟨0, false⟩, ⟨1, true⟩] 11 false false false false [] [11] [],  -- 168 runnerRef.expiresAt Scheduler.expireRunner:818 @api
+  mk 136 39 .write [] 0 true true false false [] [13] [],  -- 169 runnerRef.gpus Scheduler.load:440 @Scheduler.Run$1
+  mk 137 39 .read [⟨0, false⟩] 0 true false false false [] [13] [],  -- 170 runnerRef.gpus Scheduler.filterGPUsWithoutLoadingModels:524 @Scheduler.Run$1
+  mk 138 39 .write [⟨0, false⟩, ⟨1, true⟩] 1 true false false false [] [14] [1],  -- 171 runnerRef.gpus runnerRef.unload:573 @Scheduler.Run$2
+  mk 139 39 .read [⟨0, false⟩, ⟨1, true⟩] 1 true false false false [] [14] [],  -- 172 runnerRef.gpus runnerRef.waitForVRAMRecovery:626 @Scheduler.Run$2
+  mk 140 40 .read [] 11 false false false false [] [11] [1],  -- 173 runnerRef.llama Server.scheduleRunner:117 @api
+  mk 141 40 .write [] 0 true true false false [] [13] [],  -- 174 runnerRef.llama Scheduler.load:437 @Scheduler.Run$1
+  mk 142 40 .read [⟨0, false⟩, ⟨1, true⟩] 0 true false false false [] [13] [],  -- 175 runnerRef.llama Scheduler.updateFreeSpace:484 @Scheduler.Run$1
+  mk 143 40 .read [⟨0, false⟩, ⟨1, true⟩] 1 true false false false [] [14] [1],  -- 176 runnerRef.llama runnerRef.unload:567 @Scheduler.Run$2
+  mk 144 40 .write [⟨0, false⟩, ⟨1, true⟩] 1 true false false false [] [14] [1],  -- 177 runnerRef.llama runnerRef.unload:571 @Scheduler.Run$2
+  mk 145 40 .read [⟨1, true⟩] 0 true false false false [] [13] [],  -- 178 runnerRef.llama runnerRef.needsReload:606 @Scheduler.Run$1
+  mk 146 40 .read [⟨0, false⟩] 7 true false false false [] [10] [],  -- 179 runnerRef.llama Scheduler.unloadAllRunners:805 @Serve$2
+  mk 147 41 .write [] 0 true true false false [] [13] [],  -- 180 runnerRef.loading Scheduler.load:443 @Scheduler.Run$1
+  mk 148 41 .read [⟨0, false⟩] 0 true false false false [] [13] [],  -- 181 runnerRef.loading Scheduler.filterGPUsWithoutLoadingModels:523 @Scheduler.Run$1
+  mk 149 41 .read [⟨1, true⟩] 0 true false false false [] [13] [],  -- 182 runnerRef.loading runnerRef.needsReload:582 @Scheduler.Run$1
+  mk 150 41 .write [⟨1, true⟩] 2 false false false false [] [13] [],  -- 183 runnerRef.loading Scheduler.load$1:465 @Scheduler.load$1
+  mk 151 42 .read [⟨0, false⟩] 11 false false false false [] [11] [],  -- 184 runnerRef.model Server.PsHandler:1402 @api
+  mk 152 42 .write [] 0 true true false false [] [13] [],  -- 185 runnerRef.model Scheduler.load:435 @Scheduler.Run$1
+  mk 153 42 .write [⟨0, false⟩, ⟨1, true⟩] 1 true false false false [] [14] [1],  -- 186 runnerRef.model runnerRef.unload:570 @Scheduler.Run$2
+  mk 154 42 .read [⟨1, true⟩] 0 true false false false [] [13] [],  -- 187 runnerRef.model runnerRef.needsReload:603 @Scheduler.Run$1
+  mk 155 43 .read [⟨1, true⟩] 0 true false false false [] [13] [],  -- 188 runnerRef.modelPath Scheduler.processPending:285 @Scheduler.Run$1
+  mk 156 43 .read [] 0 true false false false [] [13] [],  -- 189 runnerRef.modelPath Scheduler.processPending:298 @Scheduler.Run$1
+  mk 157 43 .read [⟨1, true⟩] 1 true false false false [] [14] [],  -- 190 runnerRef.modelPath Scheduler.processCompleted:334 @Scheduler.Run$2
+  mk 158 43 .read [] 1 true false false false [] [14] [],  -- 191 runnerRef.modelPath Scheduler.processCompleted:362 @Scheduler.Run$2
+  mk 159 43 .read [⟨0, false⟩, ⟨1, true⟩] 1 true false false false [] [14] [],  -- 192 runnerRef.modelPath Scheduler.processCompleted:377 @Scheduler.Run$2
+  mk 160 43 .write [] 0 true true false false [] [13] [],  -- 193 runnerRef.modelPath Scheduler.load:436 @Scheduler.Run$1
+  mk 137 43 .read [⟨0, false⟩] 0 true false false false [] [13] [],  -- 194 runnerRef.modelPath Scheduler.filterGPUsWithoutLoadingModels:524 @Scheduler.Run$1
+  mk 161 43 .read [] 0 true false false false [] [13] [],  -- 195 runnerRef.modelPath ByDurationAndName.Less:682 @Scheduler.Run$1
+  mk 162 43 .read [] 4 false false false false [] [14] [],  -- 196 runnerRef.modelPath Scheduler.processCompleted$1:343 @Scheduler.processCompleted$1
+  mk 163 43 .read [⟨1, true⟩] 2 false false false false [] [13] [],  -- 197 runnerRef.modelPath Scheduler.load$1:460 @Scheduler.load$1
+  mk 164 43 .read [] 19 false false false false [] [14] [],  -- 198 runnerRef.modelPath runnerRef.waitForVRAMRecovery$1:648 @runnerRef.waitForVRAMRecovery$1
+  mk 165 44 .write [] 0 true true false false [] [13] [],  -- 199 runnerRef.numParallel Scheduler.load:446 @Scheduler.Run$1
+  mk 166 44 .read [⟨1, true⟩] 0 true false false false [] [13] [],  -- 200 runnerRef.numParallel runnerRef.needsReload:599 @Scheduler.Run$1
+  mk 155 45 .read [⟨1, true⟩] 0 true false false false [] [13] [],  -- 201 runnerRef.refCount Scheduler.processPending:285 @Scheduler.Run$1
+  mk 167 45 .write [⟨1, true⟩] 1 true false false false [] [14] [],  -- 202 runnerRef.refCount Scheduler.processCompleted:331 @Scheduler.Run$2
+  mk 168 45 .read [⟨1, true⟩] 1 true false false false [] [14] [],  -- 203 runnerRef.refCount Scheduler.processCompleted:332 @Scheduler.Run$2
+  mk 169 45 .write [⟨1, true⟩] 0 true false false false [] [13] [],  -- 204 runnerRef.refCount LlmRequest.useLoadedRunner:398 @Scheduler.Run$1
+  mk 170 45 .write [] 0 true true false false [] [13] [],  -- 205 runnerRef.refCount Scheduler.load:444 @Scheduler.Run$1
+  mk 171 45 .read [⟨1, true⟩] 0 true false false false [] [13] [],  -- 206 runnerRef.refCount Scheduler.findRunnerToUnload:789 @Scheduler.Run$1
+  mk 172 45 .read [⟨0, false⟩, ⟨1, true⟩] 11 false false false false [] [11] [],  -- 207 runnerRef.refCount Scheduler.expireRunner:824 @api
+  mk 173 45 .write [⟨1, true⟩] 2 false false false false [] [13] [],  -- 208 runnerRef.refCount Scheduler.load$1:458 @Scheduler.load$1
+  mk 174 46 .read [⟨0, false⟩] 11 false false false false [] [11] [],  -- 209 runnerRef.sessionDuration Server.PsHandler:1425 @api
+  mk 175 46 .write [⟨1, true⟩] 0 true false false false [] [13] [],  -- 210 runnerRef.sessionDuration Scheduler.processPending:290 @Scheduler.Run$1
+  mk 176 46 .read [⟨1, true⟩] 1 true false false false [] [14] [],  -- 211 runnerRef.sessionDuration Scheduler.processCompleted:333 @Scheduler.Run$2
+  mk 177 46 .write [⟨1, true⟩] 0 true false false false [] [13] [],  -- 212 runnerRef.sessionDuration LlmRequest.useLoadedRunner:404 @Scheduler.Run$1
+  mk 178 46 .write [] 0 true true false false [] [13] [],  -- 213 runnerRef.sessionDuration Scheduler.load:439 @Scheduler.Run$1
+  mk 179 46 .read [] 0 true false false false [] [13] [],  -- 214 runnerRef.sessionDuration ByDurationAndName.Less:676 @Scheduler.Run$1
+  mk 180 46 .write [⟨0, false⟩, ⟨1, true⟩] 11 false false false false [] [11] []  -- 215 runnerRef.sessionDuration Scheduler.expireRunner:823 @api
 ]
 
 /-- (class, site, site) of the pairs the translator's own implementation of the rule rejects -/
-def expectedViolations : List (Nat × Nat × Nat) := [(5, 17, 21), (5, 17, 22), (12, 48, 49), (12, 48, 49), (17, 68, 71), (17, 68, 71), (17, 68, 71), (17, 68, 71), (18, 72, 74), (18, 72, 74), (18, 72, 74), (18, 72, 74), (21, 79, 80), (25, 94, 95), (26, 96, 98), (26, 97, 98), (27, 99, 98), (27, 100, 98), (35, 115, 116), (36, 117, 118), (38, 132, 133), (38, 132, 134), (41, 147, 149), (42, 150, 151), (42, 150, 152), (46, 173, 174), (46, 173, 176), (46, 173, 177), (46, 173, 179), (46, 178, 179)]
+def expectedViolations : List (Nat × Nat × Nat) := [(12, 49, 50), (12, 49, 50), (17, 69, 72), (17, 69, 72), (17, 69, 72), (17, 69, 72), (18, 73, 75), (18, 73, 75), (18, 73, 75), (18, 73, 75), (21, 80, 81), (25, 95, 96), (26, 97, 99), (26, 98, 99), (27, 100, 99), (27, 101, 99), (38, 133, 134), (41, 148, 150), (46, 174, 175), (46, 174, 177), (46, 179, 180)]
 
-def badClassIds : List Nat := [5, 12, 17, 18, 21, 25, 26, 27, 35, 36, 38, 41, 42, 46]
-def goodClassIds : List Nat := [0, 1, 2, 3, 4, 6, 7, 8, 9, 10, 11, 13, 14, 15, 16, 19, 20, 22, 23, 24, 28, 29, 30, 31, 32, 33, 34, 37, 39, 40, 43, 44, 45]
-def badClassNames : List String := ["Scheduler.loaded", "blobDownload.CancelFunc", "blobDownload.Total", "blobDownload.done", "blobUpload.CancelFunc", "blobUpload.Total", "blobUpload.done", "blobUpload.err", "runnerRef.estimatedTotal", "runnerRef.estimatedVRAM", "runnerRef.expiresAt", "runnerRef.loading", "runnerRef.model", "runnerRef.sessionDuration"]
+def badClassIds : List Nat := [12, 17, 18, 21, 25, 26, 27, 38, 41, 46]
+def goodClassIds : List Nat := [0, 1, 2, 3, 4, 5, 6, 7, 8, 9, 10, 11, 13, 14, 15, 16, 19, 20, 22, 23, 24, 28, 29, 30, 31, 32, 33, 34, 35, 36, 37, 39, 40, 42, 43, 44, 45]
+def badClassNames : List String := ["blobDownload.CancelFunc", "blobDownload.Total", "blobDownload.done", "blobUpload.CancelFunc", "blobUpload.Total", "blobUpload.done", "blobUpload.err", "runnerRef.expiresAt", "runnerRef.loading", "runnerRef.sessionDuration"]
 
 end OllamaVerif.Generated.C15
